@@ -125,7 +125,13 @@ func streamSend(m util.Message) (s string) {
 	return fmt.Sprintf("%x", wr)
 }
 
+// lastGuard is what the argument guard found after the last runOps (byte-string arguments are handed
+// to the library with sentinel-filled spare capacity; sizing and encoding must not write there).
+var lastGuard string
+
 func runOps(s *subject, ops string) []string {
+	bind.GuardReset(true)
+	defer func() { lastGuard = bind.GuardCheck(); bind.GuardReset(false) }()
 	v, wrap, decode := s.fresh()
 	var w lenEnc
 	out := make([]string, len(ops))
@@ -172,6 +178,11 @@ func c13Subject(r *ev.Run, s *subject, depth int) int64 {
 			n++
 			obs := runOps(s, prefix)
 			r.Add("transitions", int64(len(prefix)))
+			if lastGuard != "" {
+				r.Violation("argument-written:"+s.kind, fmt.Sprintf("after the operations %s on %s: %s", prefix, s.name, lastGuard), map[string]any{"ops": prefix, "subject": s.rep})
+				r.Outcome("history-dependent")
+				return
+			}
 			for i, op := range prefix {
 				if obs[i] != ref[op] {
 					what := map[rune]string{'L': "reported size", 'M': "encoding", 'W': "size/encoding through the enclosing wrapper", 'D': "decoded value", 'S': "byte string the stream writes for it"}[op]
